@@ -76,6 +76,7 @@ type WorkerOpts struct {
 	KnownPath string
 	HashOnly  bool // determinism self-test: print "H run hash" only
 	Shard     int
+	Journal   string // confirm mode: journal every tape value to this file
 }
 
 // WorkerSummary is what a worker reports when it finishes.
@@ -117,7 +118,17 @@ const hashCap = 1 << 20
 
 // RunOnce executes one run of an engine from a fresh recording tape.
 func RunOnce(eng core.Engine, seed uint64, trace bool) (core.Result, *tape.Tape) {
+	return runOnceJ(eng, seed, trace, "")
+}
+
+func runOnceJ(eng core.Engine, seed uint64, trace bool, journal string) (core.Result, *tape.Tape) {
 	t := tape.New(seed)
+	if journal != "" {
+		if f, err := os.Create(journal); err == nil {
+			t.Journal = f
+			defer f.Close()
+		}
+	}
 	t.KeepRec = trace
 	res := eng.Run(t, trace)
 	return res, t
@@ -180,7 +191,7 @@ func Worker(o WorkerOpts) (code int) {
 		// journal: which run is about to start (crash attribution)
 		fmt.Fprintf(out, "S %d\n", i)
 		out.Flush()
-		res, tp := RunOnce(eng, seed, false)
+		res, tp := runOnceJ(eng, seed, false, o.Journal)
 		if o.HashOnly {
 			fmt.Fprintf(out, "H %d %016x %d\n", i, res.LogHash, res.Events)
 			continue
